@@ -27,6 +27,17 @@ def runSR (args : List String) : String :=
     | none => "bad-op"
   | _ => "bad-op"
 
+/-- `sri <ext> <hex>`: accept + parse(Incremental) while more() (C05_modes) -/
+def runSRI (args : List String) : String :=
+  match args with
+  | [e, h] =>
+    match unhex h with
+    | some bytes =>
+      let r := SmodelsIn.readInc (e == "1") bytes
+      joinSp (r.calls.map showCall ++ [match r.err with | none => "OK" | some l => s!"ERR:{l}:1"])
+    | none => "bad-op"
+  | _ => "bad-op"
+
 /-- `so <ext><cEdge><cHeu><filter> <hex>` -/
 def runSO (args : List String) : String :=
   match args with
